@@ -46,6 +46,12 @@ extern int g_sel;         /* opcode selected by the harness */
 
 /* ---- memory shape: everything the step may touch is a separate valid object.
  * A sequence of requires clauses (one giant conjunction makes symex explode). ---- */
+#ifdef WITNESS_SMALL
+/* only used to re-derive a small counterexample for native replay after a failure; never for a proof */
+#define REQ_SMALL(p) __CPROVER_requires(N(p) <= 48 && MCAP(p) <= 48 && DCAP(p) <= 6)
+#else
+#define REQ_SMALL(p)
+#endif
 #define REQ_VM_SHAPE(p)                                                                   \
   __CPROVER_requires(__CPROVER_is_fresh(p, sizeof(vm_t)))                                 \
   __CPROVER_requires(N(p) >= 1 && N(p) <= INT_MAX && V(p)->code.code._cap == N(p))        \
@@ -58,6 +64,7 @@ extern int g_sel;         /* opcode selected by the harness */
   __CPROVER_requires(__CPROVER_is_fresh(g_pend, N(p) * sizeof(int)))                      \
   __CPROVER_requires(__CPROVER_is_fresh(g_isroot, N(p) * sizeof(_Bool)))                  \
   __CPROVER_requires(NSM(p) <= INT_MAX && IP(p) >= 0 && (unsigned long)IP(p) < N(p))            \
+  REQ_SMALL(p)                                                                            \
   /* type invariant of bool (a bit-valid byte 2..255 is not a C++ bool) */                \
   __CPROVER_requires(*(unsigned char *)&STEPPING(p) <= 1)
 
